@@ -8,7 +8,7 @@ from vlib import fexpr
 
 from . import corecommon as cc
 
-PROPS = ["MxlVerif.Props.C13", "MxlVerif.Props.C13Main"]
+PROPS = ["MxlVerif.Props.C13", "MxlVerif.Props.C13Main", "MxlVerif.Props.C01Tie"]
 
 
 def setup(ctx):
